@@ -22,6 +22,55 @@ class Host:
         self.reentries = 0
         self.on_reenter = None
         self._fns = None
+        # thread hop (world cfg 'thread_hop'): the host runs callbacks it was handed during THIS evaluation on a fresh
+        # thread (empty contextvars context) and joins it - a synchronous hop, so the schedule stays deterministic.
+        # Callables that were already reachable from the names mapping when the evaluation started are called directly
+        # (a host that moves a lambda kept from an earlier call onto a thread has to carry the context over itself).
+        self.thread_hop = False
+        self.old_fn_ids = frozenset()
+        self.hops = 0
+        self._hop_depth = 0
+
+    def begin_eval(self, names):
+        if not self.thread_hop:
+            return
+        ids = set()
+        stack = list(names.values())
+        n = 0
+        while stack and n < 4000:
+            v = stack.pop()
+            n += 1
+            if callable(v):
+                ids.add(id(v))
+            elif isinstance(v, dict):
+                stack.extend(v.values())
+            elif isinstance(v, (list, tuple)):
+                stack.extend(v)
+        self.old_fn_ids = frozenset(ids)
+
+    def invoke(self, f, args):
+        if not self.thread_hop or self._hop_depth >= 2 or not callable(f) or id(f) in self.old_fn_ids:
+            return f(*args)
+        import threading
+        box = []
+
+        def run():
+            try:
+                box.append((True, f(*args)))
+            except BaseException as e:      # SimKill included: re-raised on the calling thread
+                box.append((False, e))
+        self._hop_depth += 1
+        self.hops += 1
+        try:
+            th = threading.Thread(target=run)
+            th.start()
+            th.join()
+        finally:
+            self._hop_depth -= 1
+        ok, v = box[0]
+        if ok:
+            return v
+        raise v
 
     def fns(self, which=('t', 'boom', 'call', 'attempt', 'keep')):
         if self._fns is None:
@@ -48,11 +97,11 @@ class Host:
                 raise HostError('probe %s' % (i,))
 
             def call(f, *args):
-                return f(*args)
+                return host.invoke(f, args)
 
             def attempt(f, *args):
                 try:
-                    return f(*args)
+                    return host.invoke(f, args)
                 except Exception:
                     host.swallowed += 1
                     return 'caught'
@@ -70,6 +119,7 @@ class Host:
             self._fns = {'t': t, 'boom': boom, 'call': call, 'attempt': attempt, 'keep': keep, 're': re}
             for k, f in self._fns.items():
                 f._sim_kind = 'host:' + k
+                f._host = self
         return {k: self._fns[k] for k in which}
 
 
@@ -133,6 +183,12 @@ def real_eval(parser, src, names, budget=60000, rec=None, default_budget=False, 
     rec = rec or monitors.Rec()
     rec.value_hooks = tuple(rec.value_hooks) + (_address_taint,)
     kw = {}
+    if names:
+        for hv in list(names.values()):
+            h = getattr(hv, '_host', None)
+            if h is not None:
+                h.begin_eval(names)
+                break
     if not default_budget:
         kw['max_ops_evaluated'] = budget
     if ast_names is not None:
